@@ -9,6 +9,7 @@
 A mutant that is not killed, or a rewrite that changes the verdict, is an analysis defect: ANALYSIS-ERROR, exit 2.
 """
 import ast
+import re
 import copy
 import multiprocessing
 import os
@@ -213,7 +214,10 @@ class _RenameLocals(ast.NodeTransformer):
             if isinstance(n, (ast.Global, ast.Nonlocal)):
                 declared.update(n.names)
         stored = {n.id for n in ast.walk(node) if isinstance(n, ast.Name) and isinstance(n.ctx, ast.Store)}
-        ren = {s for s in stored if s not in params and s not in declared and not s.startswith("__")}
+        # names that carry the repository's naming conventions are part of what the rules read (frames: x2y / *_in_x,
+        # roles: *12 / *21 / *1 / *2): renaming them is not a neutral edit for a name-typed code base
+        conv = re.compile(r"(_in_|[A-Za-z0-9]2[A-Za-z]|\d$|12|21|squared|_sq)")
+        ren = {s for s in stored if s not in params and s not in declared and not s.startswith("__") and not conv.search(s)}
         for n in ast.walk(node):
             if isinstance(n, ast.Name) and n.id in ren:
                 n.id = n.id + "_rn"
@@ -225,6 +229,7 @@ REWRITES = {
     "flip-comparisons": lambda t: _FlipCompare().visit(t),
     "dot-style": lambda t: _DotStyle().visit(t),
     "reorder-functions": _reorder_functions,
+    "rename-locals": lambda t: _RenameLocals().visit(t),
 }
 
 
